@@ -16,6 +16,7 @@ import tempfile
 BASE = 1_600_000_000
 NS = 1_000_000_000
 LONG = 'L' * 300     # a component no file system here accepts (ENAMETOOLONG)
+PAD = b'\0'          # contents are padded with NUL bytes: two sizes of one content id differ only in trailing NULs
 
 
 def scratch_root():
@@ -61,7 +62,7 @@ class Sandbox:
         b = c.encode()
         if len(b) > sz:
             raise ValueError('content id longer than size class')
-        return b + b'.' * (sz - len(b))
+        return b + PAD * (sz - len(b))
 
     def set_mtime(self, filename, mt):
         t = (BASE + mt) * NS
@@ -99,7 +100,7 @@ class Sandbox:
         elif h in self.planted:
             c = self.planted[h]
         else:
-            s = data.rstrip(b'.')
+            s = data.rstrip(PAD)
             try:
                 c = s.decode('ascii')
                 if not c or not all(ch.isalnum() or ch in '_-:' for ch in c) or len(c) > 24:
